@@ -2,6 +2,7 @@ package q
 
 import (
 	"fmt"
+	"go/token"
 	"go/types"
 	"sort"
 	"strings"
@@ -673,5 +674,123 @@ func (c *Ctx) StickyFlag(fn *ssa.Function, spec string, idx int, glob, why strin
 	}
 	if n == 0 {
 		c.Fail("floor", fnName, what, "-", "no such effect")
+	}
+}
+
+// resolveObj: the object a pointer expression denotes, through local variables and fields of locally built structs.
+func resolveObj(v ssa.Value) ssa.Value {
+	for i := 0; i < 8; i++ {
+		v = Resolve(v)
+		u, ok := v.(*ssa.UnOp)
+		if !ok || u.Op != token.MUL {
+			return v
+		}
+		fa, ok := u.X.(*ssa.FieldAddr)
+		if !ok {
+			return v
+		}
+		s := localFieldStore(fa)
+		if s == nil {
+			return v
+		}
+		v = s.Val
+	}
+	return v
+}
+
+// LinearChain (K12): within each block of fn, the stores `X.tf = append(X.tf, Y)` link every object X to at most one
+// child and the links of a block form one path (child of one link is the parent of the next): a constructor that
+// rebuilds a chain root -> ... -> tip must not hang two nodes under one parent or leave a node unlinked.
+func (c *Ctx) LinearChain(fn *ssa.Function, tf string, min int, why string) {
+	if fn == nil {
+		return
+	}
+	fnName := load.QualName(fn)
+	total := 0
+	for _, b := range fn.Blocks {
+		type link struct {
+			base, elem ssa.Value
+			at         ssa.Instruction
+		}
+		var links []link
+		for _, ins := range b.Instrs {
+			s, ok := ins.(*ssa.Store)
+			if !ok {
+				continue
+			}
+			fa, ok := s.Addr.(*ssa.FieldAddr)
+			if !ok || typeField(fa) != tf {
+				continue
+			}
+			call, ok := s.Val.(*ssa.Call)
+			if !ok {
+				continue
+			}
+			if bi, ok := call.Call.Value.(*ssa.Builtin); !ok || bi.Name() != "append" || len(call.Call.Args) != 2 {
+				continue
+			}
+			sl, ok := call.Call.Args[1].(*ssa.Slice)
+			if !ok {
+				continue
+			}
+			al, ok := sl.X.(*ssa.Alloc)
+			if !ok {
+				continue
+			}
+			el := arrayElems(al)
+			if len(el) != 1 {
+				continue
+			}
+			links = append(links, link{resolveObj(fa.X), resolveObj(el[0]), s})
+		}
+		if len(links) == 0 {
+			continue
+		}
+		total += len(links)
+		c.Sites += len(links)
+		same := func(a, b ssa.Value) bool {
+			if a == b {
+				return true
+			}
+			_, la := a.(*ssa.UnOp)
+			_, lb := b.(*ssa.UnOp)
+			return la && lb && CanonD(a, 9) == CanonD(b, 9)
+		}
+		bad := ""
+		for i := range links {
+			for j := i + 1; j < len(links); j++ {
+				if same(links[i].base, links[j].base) {
+					bad = c.At(links[j].at) + ": `" + Canon(links[j].base) + "` gets a second child in the same construction"
+				}
+				if same(links[i].elem, links[j].elem) {
+					bad = c.At(links[j].at) + ": `" + Canon(links[j].elem) + "` is linked under two parents"
+				}
+			}
+		}
+		// one path: exactly one link whose parent is nobody's child
+		heads := 0
+		for i := range links {
+			isChild := false
+			for j := range links {
+				if i != j && same(links[i].base, links[j].elem) {
+					isChild = true
+				}
+			}
+			if !isChild {
+				heads++
+			}
+		}
+		if bad == "" && heads != 1 {
+			bad = c.At(links[0].at) + fmt.Sprintf(": the %d links of this construction form %d separate pieces", len(links), heads)
+		}
+		what := fmt.Sprintf("the %d %s link(s) built at %s form one linear chain", len(links), tf, c.At(links[0].at))
+		if bad != "" {
+			c.Fail("K12", fnName, what, c.At(links[0].at), bad+" ("+why+")")
+		} else {
+			c.OK("K12", fnName, what, c.At(links[0].at), why)
+		}
+	}
+	if total < min {
+		c.Fail("floor", fnName, fmt.Sprintf("K12: %s links present (>= %d)", tf, min), "-", fmt.Sprintf("found %d", total))
 	}
 }
